@@ -458,7 +458,18 @@ pub fn instance_p(sc: &Value, p: Parameters, shared: Option<&Shared>, r: &mut St
     // one stack in three had its outermost wrapper re-configured in place after it answered the same query
     let reseated = r.gen_bool(0.34);
     if reseated { robot.reseat(&pose, &prev, j6, &q, r); }
+    // a previous vector with a NaN in J4 or J6 (6-DOF continuation at the poses where the solver re-distributes
+    // J4 / J6 relative to previous): whatever comes back has to be finite
+    let mut realised = realised;
+    let mut prev_in_range = prev_in_range;
+    if !five && entry == "inverse_continuing" && prev_class != "centered" && matches!(pose_class, "j5-zero" | "j5-pi" | "j5-tiny") && r.gen_bool(0.15) {
+        // (NaN only: with an infinite value the solver's own range reduction by repeated subtraction never ends)
+        prev[if r.gen_bool(0.5) { 3 } else { 5 }] = f64::NAN;
+        prev_in_range = false;
+        realised = false;
+    }
     // calls
+    if std::env::var("VERIF_TRACE_CALLS").is_ok() { eprintln!("call sc={} {} {} prev={:?} j6={} params={}", sc["id"], entry, pose_class, prev, j6, robots::params_json(&p)); }
     let ans = call(robot.kin.as_ref(), entry, &pose, &prev, j6);
     // identity of the call: robot description, wrapper stack, limits and every argument, bit for bit
     let key = {
